@@ -199,6 +199,8 @@ func runV(f string, a map[string]string) vRec {
 		case "rmt.CalculateRootFromAppendPath":
 			r := rmt.CalculateRootFromAppendPath(unhex(a["value"]), unhexList(a["path"]), cx.ParseU(a["size"]))
 			rec.Res = boolRes(r != nil)
+		case "rmt.VerifyRightWitness":
+			rec.Res = boolRes(rmt.VerifyRightWitness(cx.ParseU(a["idx"]), unhexList(a["path"]), unhexList(a["witness"]), unhex(a["root"])))
 		case "rmt.CalculateRootFromUpdateData":
 			p := &rmt.Proof{}
 			if err := p.Decode(unhex(a["proof"])); err != nil {
@@ -422,7 +424,7 @@ func genVerifierCases(o *hx.Out, rng *hx.Rng, n int) {
 		good, _ := codec.BytesToLisk32(bytes.Repeat([]byte{0x42}, 20))
 		texts := []string{"", good, "lsk", good[:40], good + "z", "LSK" + good[3:]}
 		for _, bad := range []string{"\u00e9", "\u20ac", "\U0001f600", "\xff", "\xc3", "\x80", "\x00", "\x7f", " ", "1"} {
-			for _, pos := range []int{0, 3, 4, 20, 34, 35, 40} {
+			for pos := 0; pos <= 40; pos++ {
 				t := []byte(good)
 				// keep the byte length at 41 where possible: overwrite as many bytes as the replacement has
 				if pos+len(bad) <= len(t) {
@@ -490,6 +492,23 @@ func genVerifierCases(o *hx.Out, rng *hx.Rng, n int) {
 		}
 		put("smt.Verify", map[string]string{"keys": hexList(keys), "proof": hx2(enc), "root": hx2(h32(9)), "keylen": cx.I(int64(kl))})
 	}
+	// sibling hashes of every length at every position of a walked path (one query, bitmap selecting 1..4 siblings)
+	for _, hl := range []int{0, 1, 31, 32, 33, 64, 65} {
+		for nb := 1; nb <= 4; nb++ {
+			for pos := 0; pos < nb; pos++ {
+				k := bytes.Repeat([]byte{0xa5}, 4)
+				p := &smt.Proof{Queries: []*smt.QueryProof{{Key: k, Value: bytes.Repeat([]byte{1}, 32), Bitmap: []byte{byte(1<<uint(nb) - 1)}}}}
+				for i := 0; i < nb; i++ {
+					l := 32
+					if i == pos {
+						l = hl
+					}
+					p.SiblingHashes = append(p.SiblingHashes, bytes.Repeat([]byte{byte(0x60 + i)}, l))
+				}
+				put("smt.Verify", map[string]string{"keys": hx2(k), "proof": hx2(p.Encode()), "root": hx2(h32(1)), "keylen": "4"})
+			}
+		}
+	}
 	// the historic witness: bitmap longer than the key, key equal to the query key
 	{
 		k := []byte{1, 1}
@@ -513,6 +532,34 @@ func genVerifierCases(o *hx.Out, rng *hx.Rng, n int) {
 				a := map[string]string{"hashes": hexList(hashes), "proof": hx2(p.Encode()), "root": hx2(h32(9))}
 				put("rmt.VerifyProof", a)
 				put("rmt.CalculateRootFromUpdateData", a)
+			}
+		}
+	}
+	// append paths and right witnesses with hashes of every length (both non-empty: an empty pair is the known
+	// VerifyRightWitness(nil, nil) issue owned by builder-tries)
+	for _, hl := range []int{0, 1, 31, 32, 33, 63, 64, 65, 100} {
+		mk := func(n int, l int) [][]byte {
+			out := [][]byte{}
+			for i := 0; i < n; i++ {
+				out = append(out, bytes.Repeat([]byte{byte(0x50 + i)}, l))
+			}
+			return out
+		}
+		for _, size := range []uint64{1, 2, 3, 5, 7, 8} {
+			pc := 0
+			for x := size; x > 0; x &= x - 1 {
+				pc++
+			}
+			for _, other := range []int{32, hl} {
+				path := mk(pc, other)
+				if len(path) > 0 {
+					path[len(path)-1] = bytes.Repeat([]byte{0x77}, hl) // one odd-length hash among regular ones
+				}
+				put("rmt.CalculateRootFromAppendPath", map[string]string{"value": "01", "path": hexList(path), "size": cx.U(size)})
+				for _, nw := range []int{1, 2} {
+					put("rmt.VerifyRightWitness", map[string]string{"idx": cx.U(size), "path": hexList(path), "witness": hexList(mk(nw, hl)), "root": hx2(h32(9))})
+					put("rmt.VerifyRightWitness", map[string]string{"idx": cx.U(size), "path": hexList(mk(pc, 32)), "witness": hexList(mk(nw, hl)), "root": hx2(h32(9))})
+				}
 			}
 		}
 	}
